@@ -68,6 +68,9 @@ def indicators(recipe, n, theta, two):
     if not any(x > 0 for x in eta):
         eta[0] = 1.0
     arr = np.array(eta, dtype=float)
+    # overall magnitude of the (squared) indicators: the marked set does not depend on it; a power of two keeps
+    # every exactly decidable case exactly decidable (late in an adaptive run the sum is 1e-8 and smaller)
+    arr = arr * 2.0 ** int(recipe.get('mag', 0))
     return (arr.reshape(2, n).T.copy() if two else arr), theta
 
 
@@ -89,7 +92,9 @@ def recipes():
 
 def cases(max_ops):
     lay = st.sampled_from(['C', 'C', 'F', 'view', 'list'])
-    mark = st.tuples(st.sampled_from(['iso', 'aniso']), gens.THETAS, recipes(), lay).map(lambda t: [t[0], t[1], dict(t[2], layout=t[3])])
+    mag = st.sampled_from([0, 0, 0, -17, -27, -34, -60, 10])
+    mark = st.tuples(st.sampled_from(['iso', 'aniso']), gens.THETAS, recipes(), lay, mag).map(
+        lambda t: [t[0], t[1], dict(t[2], layout=t[3], mag=t[4])])
     # marking steps interleaved with other refinements: an entry ['op', <operation>] is applied unchecked in between
     plain = gens.ops(allow=('t', 'x', 'tx')).map(lambda o: ['op', o, None])
     step = st.one_of(mark, mark, plain)
@@ -330,12 +335,13 @@ def run(ctx):
     for mno, seq, kind, m in ctx.mine(jobs):
         for mask in range(1, 2**m):
             case = {'kind': 'bfs', 'mesh': meshdrive.BFS_MESHES[mno], 'seq': seq,
-                    'marks': [[kind, 0.5, {'r': 'subset', 'mask': mask, 'layout': ['C', 'F', 'view'][mask % 3]}]]}
+                    'marks': [[kind, 0.5, {'r': 'subset', 'mask': mask, 'layout': ['C', 'F', 'view'][mask % 3],
+                                            'mag': [0, 0, -30, -40][(mask // 3) % 4]}]]}
             body(case, rec)
             rec.add('enumerated_subset_cases')
         for pos in range(m):
             body({'kind': 'bfs', 'mesh': meshdrive.BFS_MESHES[mno], 'seq': seq,
-                  'marks': [[kind, 0.5, {'r': 'exact', 'pos': pos}]]}, rec)
+                  'marks': [[kind, 0.5, {'r': 'exact', 'pos': pos, 'mag': [0, -34][pos % 2]}]]}, rec)
             rec.add('exact_threshold_cases')
         body({'kind': 'bfs', 'mesh': meshdrive.BFS_MESHES[mno], 'seq': seq, 'marks': [[kind, 0.5, {'r': 'equal', 'val': 1.0}]]}, rec)
     n = ctx.share(2400 if ctx.quick else 24000)
